@@ -1,7 +1,7 @@
 """C09 - text input files are read faithfully."""
 import ast
 
-from .. import form, q, symeval, trace
+from .. import boolq, form, q, select, symeval, trace
 from ..core import AnalysisError, const, dotted, norm, parent_map, calls_in
 from ..form import Rat
 
@@ -285,44 +285,47 @@ def check_keys(ctx, row_loop, writes, last_def):
 
 
 def check_classification(ctx):
+    """Which header names are quantile / threshold / member / other-score columns: the selection predicate of each classifier,
+    however it is written (loop + append, comprehension, helper predicate), is compared by truth table with the documented one."""
     prog = ctx.prog
     m = prog.module("verif.input")
+    att = form.apply("elem", [S("fields")])
+    first = form.apply("getitem", [att, Rat.const(0)])
+    rest = form.apply("call:verif.util.is_number", [form.apply("getitem", [att, ("slice", Rat.const(1), "None", "None")])])
+
+    def is_letter(ch):
+        return boolq.prop(form.apply("cmp_eq", [first, form.apply("str:" + repr(ch), [])]))
+
+    def is_name(name):
+        return boolq.prop(form.apply("cmp_eq", [att, form.apply("str:" + repr(name), [])]))
+    numeric = boolq.prop(rest)
     spec = {"_get_quantile_fields": ("q", None), "_get_threshold_fields": ("p", "pit"), "_get_ens_fields": ("e", "elev")}
     for fn, (letter, excl) in spec.items():
         site = "verif.input.Text." + fn
-        f = prog.own_method(site)
-        ev = symeval.Evaluator(m)
-        ev.loop_mode = "body_once"
-        ev.record = True
-        ev.run(f)
-        apps = [e for e in ev.events if e["kind"] == "call" and e["name"].endswith(".append")]
-        ctx.need(len(apps) == 1, "%s: one append expected" % site)
-        cond = apps[0]["conds"][-1][0] if apps[0]["conds"] else None
-        leaves = q.leaves(cond, "and") if cond is not None else []
-        keys = sorted(l.key() for l in leaves)
-        att = "elem($fields)"
-        first = "cmp_eq(getitem(%s,0) - str:'%s'(),0)" % (att, letter)
-        num = "call:verif.util.is_number(getitem(%s,('slice',1,'None','None')))" % att
-        want = {first, num}
-        if excl:
-            want.add("cmp_ne(%s - str:'%s'(),0)" % (att, excl))
-        got = set(keys)
-        # equality atoms are sign-normalised: compare modulo operand order
-        def canon(k):
-            return k.replace("str:'%s'() - getitem(%s,0)" % (letter, att), "getitem(%s,0) - str:'%s'()" % (att, letter)) \
-                    .replace("str:'%s'() - %s" % (excl, att), "%s - str:'%s'()" % (att, excl)) if excl else \
-                k.replace("str:'%s'() - getitem(%s,0)" % (letter, att), "getitem(%s,0) - str:'%s'()" % (att, letter))
-        got = set(canon(k) for k in got)
-        ctx.ob("C09.2", site, got == want and apps[0]["conds"][-1][1], "column is selected iff first letter '%s', numeric remainder%s" % (letter, ", not '%s'" % excl if excl else ""),
-               loc=prog.loc(m, apps[0]["node"]), msg="%s selects columns under %s" % (fn, sorted(got)), expected=sorted(want), found=sorted(got))
-        ok_app = apps[0]["args"] and apps[0]["args"][0].key() == att
-        ctx.ob("C09.2", site, ok_app, "the column name itself is collected", loc=prog.loc(m, apps[0]["node"]), msg="%s collects %s" % (fn, apps[0]["args"]))
+        elem, seq, found, node = select.selection(prog, site)
+        want = ("and", [is_letter(letter), numeric] + ([("not", is_name(excl))] if excl else []))
+        try:
+            w = boolq.differ(found, want)
+        except boolq.TooBig as e:
+            raise AnalysisError("%s: selection predicate too large to compare (%s)" % (site, e))
+        ctx.ob("C09.2", site, w is None, "column is selected iff first letter '%s', numeric remainder%s" % (letter, ", not '%s'" % excl if excl else ""),
+               loc=prog.loc(m, node), msg="%s selects differently from the documented rule when %s" % (fn, boolq.show(w) if w else ""),
+               sample={"rule": "C09.2", "function": fn, "equivalent": w is None})
+        ctx.ob("C09.2", site, isinstance(elem, Rat) and elem.equals(att) and isinstance(seq, Rat) and seq.key() == "$fields", "the column name itself is collected, from the given header",
+               loc=prog.loc(m, node), msg="%s collects %s from %s" % (fn, elem, seq))
     # other fields = complement
     site = "verif.input.Text._get_other_fields"
-    f = prog.own_method(site)
-    src = norm(f)
-    ok = "att not in self.get_regular_names()" in src and "att[0] == 'q' or att[0] == 'p' or att[0] == 'e'" in src and "is_number(att[1:])" in src and "continue" in src
-    ctx.ob("C09.2", site, ok, "other fields = not a regular name and not a q/p/e<number> column", loc=prog.loc(m, f), msg="the complement rule of _get_other_fields changed")
+    elem, seq, found, node = select.selection(prog, site)
+    regular = ("atom", form.apply("in", [att, form.apply("self.get_regular_names", [])]).key())
+    longer = boolq.prop(form.apply("cmp_lt", [Rat.const(1), form.apply("len", [att])]))
+    numbered = ("and", [longer, ("or", [is_letter("q"), is_letter("p"), is_letter("e")]), numeric])
+    want = ("and", [("not", regular), ("not", numbered)])
+    try:
+        w = boolq.differ(found, want)
+    except boolq.TooBig as e:
+        raise AnalysisError("%s: selection predicate too large to compare (%s)" % (site, e))
+    ctx.ob("C09.2", site, w is None and isinstance(elem, Rat) and elem.equals(att), "other fields = not a regular name and not a q/p/e<number> column",
+           loc=prog.loc(m, node), msg="_get_other_fields selects differently from the documented complement when %s" % (boolq.show(w) if w else "(element %s)" % elem))
     reg = prog.own_method("verif.input.Input.get_regular_names")
     names = None
     for st in ast.walk(reg):
